@@ -863,7 +863,32 @@ pub fn panic_msg(p: &Box<dyn std::any::Any + Send>) -> String {
     }
 }
 
-/// Install a panic hook that stays silent (contract panics are expected and caught).
+static LAST_PANIC: std::sync::Mutex<String> = std::sync::Mutex::new(String::new());
+
+/// Install a panic hook that stays silent (contract panics are expected and caught) but remembers
+/// the last message and location, so that a panic of the harness itself can be reported.
 pub fn silence_panics() {
-    std::panic::set_hook(Box::new(|_| {}));
+    std::panic::set_hook(Box::new(|info| {
+        if let Ok(mut g) = LAST_PANIC.try_lock() {
+            *g = format!("{info}");
+        }
+    }));
+}
+
+pub fn last_panic() -> String {
+    LAST_PANIC.lock().map(|g| g.clone()).unwrap_or_default()
+}
+
+/// Run a whole check; a panic that escapes (i.e. one of the harness, not of a contract) is a
+/// machinery error (exit 2), never a verdict.
+pub fn guarded_main<F: FnOnce() -> i32 + std::panic::UnwindSafe>(f: F) -> ! {
+    silence_panics();
+    let code = match catch_unwind(f) {
+        Ok(c) => c,
+        Err(_) => {
+            eprintln!("machinery error: the harness itself panicked: {}", last_panic());
+            2
+        }
+    };
+    std::process::exit(code)
 }
